@@ -30,6 +30,12 @@ comments of configtls.go; the full text with the clause names is the header of s
 
 OPEN points O1..O9 (documentation silent / inconsistent; every behaviour admitted) and what is NOT covered: see TLSObs.tla.
 
+Open findings (extras/known_findings.json, repairs in extras/fixes/, both repairs verified with VERIF_REPO=<patched tree>
+VERIF_E10_MODEL=fixed ./check E10: no EXTRA-KNOWN line, no drift):
+  E10-reload-drops-cipher-suites          client_ca_file_reload: true makes the server ignore cipher_suites / curve_preferences
+  E10-client-ca-watch-lost-after-removal  after the client CA file was removed once, a file created again and all later changes
+                                          are never reloaded
+
 Technique: TLSObs.tla = the statement as a fold over histories (Judge); TLSReload.tla = implementation-shaped model (certReloader
 check / reload steps, watcher event queue and goroutine, getClientConfig snapshot), exhaustively checked by TLC against the
 statement (JsOK; variants pinnedsuites / pinnedwatch = the two open findings, eager / stale = controls must be refuted); TLC generates the static cases (TLSStaticGen) and random
@@ -242,10 +248,10 @@ def run(c):
                          ("FALSE" if q else "TRUE"), workers=1, timeout=300, count=False, label="gen_static")
 
         def gen_beh(shape, num):
-            return c.tlc(SPEC, "TLSReloadMC", cfg_text=mc_cfg(shape, "gen", "pinned", emit=True), workers=1, timeout=600,
+            return c.tlc(SPEC, "TLSReloadMC", cfg_text=mc_cfg(shape, "gen", os.environ.get("VERIF_E10_MODEL", "pinned"), emit=True), workers=1, timeout=600,
                          count=False, label="gen_%s" % shape, simulate="num=%d" % num, depth=150, seed=c.seed, heap="3g")
         gs = ex.submit(gen_static)
-        gb = [(sh, ex.submit(gen_beh, sh, n)) for sh, n in (("cert", c.pick(260, 1500)), ("ca", c.pick(260, 1500)))]
+        gb = [(sh, ex.submit(gen_beh, sh, n)) for sh, n in (("cert", c.pick(80, 900)), ("ca", c.pick(90, 900)))]
     binp = c.go_build("tlsreload", pkg="./cmd")
     if not c.replay:
         r = gs.result()
@@ -292,6 +298,15 @@ def run(c):
     # take the same course: one reproduction is enough)
     confirmed = []
     if bad and not c.replay:
+        # contradictions that carry the signature of a known finding: three per signature are enough
+        nk, keep = {}, []
+        for v in bad:
+            sig = signature_of(byid[v["id"]], v)
+            nk[sig] = nk.get(sig, 0) + 1
+            if sig is None or nk[sig] <= 3:
+                keep.append(v)
+        c.extra["contradictions_by_signature"] = {str(k): n for k, n in nk.items()}
+        bad_all, bad = bad, keep
         again = []
         for v in bad:
             for k in range(2):
@@ -334,6 +349,8 @@ def run(c):
             if op["op"] == "race" or op.get("how") == "remove":
                 break                                   # from here on the course depends on the interleaving
             if op["op"] == "wca":
+                if pend:
+                    break                               # two operations the watcher may see in either order of its own steps
                 pend = True
             elif op["op"] == "settle":
                 pend = False
@@ -373,7 +390,8 @@ def run(c):
         k = byid[l["id"]].get("kind", "replay")
         kinds[k] = kinds.get(k, 0) + 1
     c.extra.update(scripts_by_kind=kinds, handshakes=nhs, slow_discarded=slow, reload_interval_ms=R_MS,
-                   clause_verdicts={cl: sum(1 for v in bad if v["clause"] == cl) for cl in set(v["clause"] for v in bad)},
+                   clause_verdicts={cl: sum(1 for v in verdicts.values() if v["clause"] == cl)
+                                    for cl in set(v["clause"] for v in verdicts.values() if not v["ok"])},
                    model_drift_scripts=drift)
     for l in lines[:1] + [l for l in lines if l["id"].startswith("cert")][:1] + [l for l in lines if l["id"].startswith("ca")][:1]:
         c.sample(dict(id=l["id"], c=l["c"], evs=l["evs"][:6]))
